@@ -87,45 +87,57 @@ func c01(repo string, out *fg.Out) error {
 		return fd, nil
 	}
 
-	// ---- unescape
-	un, err := fn("LineProtocolParser", "unescape")
+	// ---- unescape (names) and, if present, unescapeString (quoted string field values)
+	escSwitch := func(name string) ([]int, int, error) {
+		un, err := fn("LineProtocolParser", name)
+		if err != nil {
+			return nil, 0, err
+		}
+		var set []int
+		nsw := 0
+		ast.Inspect(un, func(m ast.Node) bool {
+			sw, ok := m.(*ast.SwitchStmt)
+			if !ok || !isIdent(sw.Tag, "next") {
+				return true
+			}
+			nsw++
+			for _, cc := range sw.Body.List {
+				for _, e := range cc.(*ast.CaseClause).List {
+					if c, ok := charVal(e); ok {
+						set = append(set, c)
+					} else {
+						set = append(set, -1)
+					}
+				}
+			}
+			return true
+		})
+		if nsw != 1 || len(set) == 0 {
+			return nil, 0, fmt.Errorf("%s: expected exactly one `switch next { case <chars>: }`", name)
+		}
+		for _, c := range set {
+			if c < 0 {
+				return nil, 0, fmt.Errorf("%s: non-char case label", name)
+			}
+		}
+		esc := eqChars(lp, un, func(s string) bool { return s == "data[i]" })
+		if len(esc) != 1 {
+			return nil, 0, fmt.Errorf("%s: expected exactly one `data[i] == '<c>'` test, found %d", name, len(esc))
+		}
+		txt := lp.Text(un)
+		for _, pat := range []string{"i+1 < len(data)", "next := data[i+1]", "buf = append(buf, next)", "buf = append(buf, data[i])"} {
+			if !strings.Contains(txt, pat) {
+				return nil, 0, fmt.Errorf("%s: pattern %q not found", name, pat)
+			}
+		}
+		return set, esc[0], nil
+	}
+	unescapeSet, escByte, err := escSwitch("unescape")
 	if err != nil {
 		return err
 	}
-	var unescapeSet []int
+	escU := []int{escByte}
 	nsw := 0
-	ast.Inspect(un, func(m ast.Node) bool {
-		sw, ok := m.(*ast.SwitchStmt)
-		if !ok || !isIdent(sw.Tag, "next") {
-			return true
-		}
-		nsw++
-		for _, cc := range sw.Body.List {
-			for _, e := range cc.(*ast.CaseClause).List {
-				if c, ok := charVal(e); ok {
-					unescapeSet = append(unescapeSet, c)
-				} else {
-					unescapeSet = append(unescapeSet, -1)
-				}
-			}
-		}
-		return true
-	})
-	if nsw != 1 || len(unescapeSet) == 0 {
-		return fmt.Errorf("unescape: expected exactly one `switch next { case <chars>: }`")
-	}
-	for _, c := range unescapeSet {
-		if c < 0 {
-			return fmt.Errorf("unescape: non-char case label")
-		}
-	}
-	escU := eqChars(lp, un, func(s string) bool { return s == "data[i]" })
-	if len(escU) != 1 {
-		return fmt.Errorf("unescape: expected exactly one `data[i] == '<c>'` test, found %d", len(escU))
-	}
-	if !strings.Contains(lp.Text(un), "i+1 < len(data)") {
-		return fmt.Errorf("unescape: guard `i+1 < len(data)` not found")
-	}
 
 	// ---- splitOnDelimiter
 	sp, err := fn("", "splitOnDelimiter")
@@ -169,27 +181,52 @@ func c01(repo string, out *fg.Out) error {
 		return err
 	}
 
-	// ---- key/value cut
+	// ---- key/value cut: `bytes.IndexByte(x, '=')` (escape-unaware) or `indexUnescaped(x, '=')` (escape-aware)
 	kv := -1
+	kvAware := -1
 	for _, name := range []string{"parseMeasurementTags", "parseFields"} {
 		fd, err := fn("LineProtocolParser", name)
 		if err != nil {
 			return err
 		}
-		cs := fg.CallsNamed(fd, "IndexByte")
-		if len(cs) != 1 || len(cs[0].Args) != 2 {
-			return fmt.Errorf("%s: expected exactly one bytes.IndexByte(x, '<c>') call", name)
+		plain := fg.CallsNamed(fd, "IndexByte")
+		aware := fg.CallsNamed(fd, "indexUnescaped")
+		if len(plain)+len(aware) != 1 {
+			return fmt.Errorf("%s: expected exactly one bytes.IndexByte(x, '<c>') or indexUnescaped(x, '<c>') call", name)
 		}
-		c, ok := charVal(cs[0].Args[1])
+		call, a := plain, 0
+		if len(aware) == 1 {
+			call, a = aware, 1
+		}
+		if len(call[0].Args) != 2 {
+			return fmt.Errorf("%s: unexpected argument count of the separator search", name)
+		}
+		c, ok := charVal(call[0].Args[1])
 		if !ok {
-			return fmt.Errorf("%s: IndexByte separator is not a char literal", name)
+			return fmt.Errorf("%s: separator is not a char literal", name)
 		}
-		if kv >= 0 && kv != c {
-			return fmt.Errorf("tags and fields are cut at different separators")
+		if (kv >= 0 && kv != c) || (kvAware >= 0 && kvAware != a) {
+			return fmt.Errorf("tags and fields are cut differently")
 		}
-		kv = c
+		kv, kvAware = c, a
 		if len(fg.CallsNamed(fd, "unescape")) == 0 {
 			return fmt.Errorf("%s: no unescape call", name)
+		}
+	}
+	if kvAware == 1 {
+		iu, err := fn("", "indexUnescaped")
+		if err != nil {
+			return err
+		}
+		cs := eqChars(lp, iu, func(s string) bool { return s == "b[i]" })
+		if len(cs) != 1 || cs[0] != escU[0] {
+			return fmt.Errorf("indexUnescaped: expected the single char test `b[i] == '\\\\'`")
+		}
+		txt := lp.Text(iu)
+		for _, pat := range []string{"i+1 < len(b)", "i++", "continue", "b[i] == c", "return i", "return -1"} {
+			if !strings.Contains(txt, pat) {
+				return fmt.Errorf("indexUnescaped: pattern %q not found", pat)
+			}
 		}
 	}
 
@@ -277,6 +314,30 @@ func c01(repo string, out *fg.Out) error {
 	first := eqChars(lp, pv, func(s string) bool { return s == "value[0]" })
 	if len(last) != 3 || len(first) != 1 || last[0] != first[0] {
 		return fmt.Errorf("parseFieldValue: expected value[0]=='\"', value[len-1]=='\"', =='i', =='u' tests (got first=%v last=%v)", first, last)
+	}
+	stringSet := unescapeSet
+	strFn := ""
+	ast.Inspect(pv, func(m ast.Node) bool {
+		c, ok := m.(*ast.CallExpr)
+		if !ok || len(c.Args) != 1 || lp.Text(c.Args[0]) != "value[1 : len(value)-1]" {
+			return true
+		}
+		strFn += fg.CalleeName(c) + ";"
+		return true
+	})
+	switch strFn {
+	case "unescape;":
+	case "unescapeString;":
+		set, esc, err := escSwitch("unescapeString")
+		if err != nil {
+			return err
+		}
+		if esc != escU[0] {
+			return fmt.Errorf("unescapeString uses a different escape byte")
+		}
+		stringSet = set
+	default:
+		return fmt.Errorf("parseFieldValue: expected exactly one unescape/unescapeString call on value[1 : len(value)-1], found %q", strFn)
 	}
 	ptxt := lp.Text(pv)
 	for _, pat := range []string{"strconv.ParseInt(strValue[:len(strValue)-1], 10, 64)", "strconv.ParseUint(strValue[:len(strValue)-1], 10, 64)", "strconv.ParseFloat(strValue, 64)", "value = bytes.TrimSpace(value)"} {
@@ -474,10 +535,12 @@ func c01(repo string, out *fg.Out) error {
 	}
 	fmt.Fprintf(w, "namespace Arc.Generated.C01\n")
 	fmt.Fprintf(w, "/-- bytes of the `case` list of unescape's inner switch (source order) -/\ndef unescapeSet : List Nat := %s\n", nat(unescapeSet))
+	fmt.Fprintf(w, "/-- escape set applied to the inside of a quoted string field value (unescape's own set, or unescapeString's) -/\ndef stringUnescapeSet : List Nat := %s\n", nat(stringSet))
+	fmt.Fprintf(w, "/-- true when the key/value separator is located by the escape-aware indexUnescaped, false for bytes.IndexByte -/\ndef kvCutEscapeAware : Bool := %v\n", kvAware == 1)
 	fmt.Fprintf(w, "/-- `data[i] == '\\\\'` in unescape and splitOnDelimiter (same literal) -/\ndef escapeByte : Nat := %d\n", escU[0])
 	fmt.Fprintf(w, "/-- the quote toggle byte of splitOnDelimiter -/\ndef quoteByte : Nat := %d\n", spc[1])
 	fmt.Fprintf(w, "def lineDelim : Nat := %d\ndef commaDelim : Nat := %d\n", lineDelim, commaDelim)
-	fmt.Fprintf(w, "/-- `bytes.IndexByte(·, '=')` (escape-unaware first occurrence) in parseMeasurementTags and parseFields -/\ndef kvSeparator : Nat := %d\n", kv)
+	fmt.Fprintf(w, "/-- the key/value separator searched in parseMeasurementTags and parseFields -/\ndef kvSeparator : Nat := %d\n", kv)
 	var bs []string
 	for _, b := range boolBytes {
 		bs = append(bs, fmt.Sprintf("(%d, %v)", b.B, b.V))
@@ -505,6 +568,8 @@ func c01(repo string, out *fg.Out) error {
 	fmt.Fprintf(w, "end Arc.Generated.C01\n")
 
 	out.JSON["unescape_set"] = unescapeSet
+	out.JSON["string_unescape_set"] = stringSet
+	out.JSON["kv_cut_escape_aware"] = kvAware == 1
 	out.JSON["escape_byte"] = escU[0]
 	out.JSON["quote_byte"] = spc[1]
 	out.JSON["line_delim"] = lineDelim
